@@ -2,7 +2,7 @@
 
    Model: Model/SendValue.v (binary64 value layer), Model/Send.v (selection, outputs, messages, assembly: byte-exact against
    the implementation incl. the signatures, by the correspondence run of every check) of the REPAIRED send_tx (fix: commits
-   76b1d46 7028915 b2620c0 68ff814 fc63e23 5a36e22 956c05d).  Specs: Spec/Sighash.v (legacy signature hash, template-level
+   a6453f8 6ab0af3 f63b97b d5fd479 99f7271 5c18f44 671eb14).  Specs: Spec/Sighash.v (legacy signature hash, template-level
    [unlocks]), Spec/Bip143.v.
 
    PROVED (for the model, for all inputs):
